@@ -129,6 +129,60 @@ pub fn tiny_case(fen: &str, steps: &[(Option<u8>, u64)], acc: &mut Acc) {
     }
 }
 
+/// Histories that contain a search which ran through ALL iterations by itself (possible on tiny roots only): the table
+/// then holds a root entry of the maximal depth. Every kind of follow-up search on that table (unlimited, limit above /
+/// at / below the maximum) must still announce a legal move, end by itself and respect its limit.
+/// Used by C06 (legal move for every table history) and C08 (clean end whatever the table holds).
+pub fn deep_histories(tier: &str, prop: &str) -> (Acc, SpaceReport) {
+    let roots = tiny_roots();
+    let budget: u64 = if tier == "quick" { 2_000_000 } else { 30_000_000 };
+    let t0 = std::time::Instant::now();
+    let acc = par_items(&roots, &|_, fen, acc| {
+        let spec = RootSpec::fen(fen);
+        let Ok((game, pos)) = spec.build() else { return };
+        let legal = pos.legal_uci_sorted();
+        let mut table = new_table();
+        let first = run_search(&game, &mut table, &SearchCfg { max_depth: None, stop_at: u64::MAX, depth_monitor: u32::MAX, watchdog: budget, tableless: false });
+        acc.evaluations += 1;
+        if first.result.is_err() {
+            return; // reported by the tiny-root cases of C08
+        }
+        if first.watchdog_fired {
+            acc.count("tiny roots whose unlimited search did not finish all iterations within the poll budget (no deep history)");
+            return;
+        }
+        acc.states += 1;
+        let deepest = info_depths(&first.transcript).into_iter().max().unwrap_or(0);
+        acc.max("iterations completed by an unlimited search that ended by itself", deepest as u64);
+        for follow in [None, Some(255u8), Some(100), Some(65), Some(64), Some(63), Some(2), Some(1)] {
+            let mut t = table.clone();
+            let steps = vec![(None, budget), (follow, budget)];
+            let key = format!("deep-history|{}|{:?}", fen, follow);
+            let run = run_search(&game, &mut t, &SearchCfg { max_depth: follow, stop_at: u64::MAX, depth_monitor: follow.map_or(u32::MAX, |d| d as u32), watchdog: budget, tableless: false });
+            acc.evaluations += 1;
+            acc.transitions += 1;
+            match &run.result {
+                Err(p) => acc.violation(format!("{}|crash", key), format!("after an unlimited search of {} that ran through all {} iterations, a search with limit {:?} on the same table crashed: {}", fen, deepest, follow, p), replay_json(fen, &steps)),
+                Ok(None) if !legal.is_empty() => {
+                    acc.outcome("deep history: no move");
+                    acc.violation(format!("{}|none", key), format!("after an unlimited search of {} that ran through all {} iterations, a search with limit {:?} on the same table announces no move although {} legal moves exist", fen, deepest, follow, legal.len()), replay_json(fen, &steps))
+                }
+                Ok(Some(m)) if !legal.contains(m) => acc.violation(format!("{}|illegal", key), format!("after a complete unlimited search of {}, a search with limit {:?} announces the illegal move {}", fen, follow, m), replay_json(fen, &steps)),
+                _ => acc.outcome("deep history: legal move"),
+            }
+            if prop == "C08" {
+                if run.deeper_seen {
+                    acc.violation(format!("{}|deeper", key), format!("after a complete unlimited search of {}, a search with limit {:?} entered a node of iteration depth {}", fen, follow, run.max_iter_depth), replay_json(fen, &steps));
+                } else if run.watchdog_fired {
+                    acc.violation(format!("{}|runs-on", key), format!("after a complete unlimited search of {} ({} polls), a search with limit {:?} on the same table did not end within {} polls", fen, first.polls, follow, budget), replay_json(fen, &steps));
+                }
+            }
+        }
+    });
+    let rep = SpaceReport { name: format!("deep histories: {} tiny roots, an unlimited search that completes every iteration by itself, then each of 8 follow-up searches (unlimited, limits 255, 100, 65, 64, 63, 2, 1) on the table it left", roots.len()), states: acc.states, exhaustive: true, note: format!("[{:.1}s]", t0.elapsed().as_secs_f64()) };
+    (acc, rep)
+}
+
 pub fn run(tier: &str, seed: i64) -> Outcome {
     let q = tier == "quick";
     // (a) E3 words
@@ -171,6 +225,9 @@ pub fn run(tier: &str, seed: i64) -> Outcome {
         out.caps.push(format!("{} depth-limited searches on tiny roots were cut by the poll cap of {} before reaching their limit; for them only 'no deeper node entered so far, no crash' was established", n, wd_limit));
     }
     out.acc.merge(acc);
+    let (dh, dh_rep) = deep_histories(tier, "C08");
+    out.spaces.push(dh_rep);
+    out.acc.merge(dh);
     out.rule = format!("{} ; plus on tiny roots every depth limit of the list with every prior history, and unlimited searches stopped by a poll watchdog at each budget; afterwards a depth-2 search on the same table must return a legal move", out.rule);
     out.traces_validated = out.acc.states;
     out.assumptions.push("depth limits above 5 are exercised on tiny roots only (a search to depth 30 on an ordinary root cannot finish); 'as long as it is left running' is covered up to the largest poll budget listed".into());
